@@ -298,9 +298,11 @@ type report struct {
 	Loops           int          `json:"loops"`
 	ElidedLoops     []string     `json:"elided_tick_free_loops"`
 	Degraded        []string     `json:"position_tests_degraded_to_unknown"`
+	HelperLoops     []string     `json:"loops_in_tick_free_helpers"`
+	Trusted         []string     `json:"trusted_translation_assumptions"`
 	InlinablePreds  []string     `json:"inlined_predicates"`
 	Blocking        []failure    `json:"blocking"`
-	AssumedProgress []string     `json:"assumed_progress"`
+	AssumedProgress interface{}  `json:"assumed_progress"`
 	Problems        []string     `json:"problems"`
 	Funcs           []funcReport `json:"per_function"`
 }
@@ -312,6 +314,7 @@ func main() {
 	maxSet := flag.Int("maxset", 64, "largest finite token set used as a callee precondition")
 	inlineMax := flag.Int("inline", 80, "largest predicate (in nodes) inlined into conditions")
 	verbose := flag.Bool("v", false, "print blocking cycles")
+	assumeFile := flag.String("assume", "", "JSON file listing assumed_progress loops: [{\"function\":..,\"loop\":n (n-th for statement of the function, from 1),\"reason\":..}]")
 	why := flag.String("why", "", "debug: explain why a function may return without consuming")
 	whyDepth := flag.Int("whydepth", 3, "debug: depth of -why")
 	flag.Parse()
@@ -332,6 +335,33 @@ func main() {
 	}
 	pk := loadPackage(absRepo)
 
+	// assumed_progress entries (the aim is to have none)
+	type assumeEntry struct {
+		Function string `json:"function"`
+		Loop     int    `json:"loop"`
+		Reason   string `json:"reason"`
+		Pos      string `json:"pos"`
+	}
+	var assumes []assumeEntry
+	if *assumeFile != "" {
+		data, err := os.ReadFile(*assumeFile)
+		must(err)
+		must(json.Unmarshal(data, &assumes))
+		for i := range assumes {
+			fi := pk.funcs[assumes[i].Function]
+			if fi == nil {
+				must(fmt.Errorf("assumed_progress: function %s not found", assumes[i].Function))
+			}
+			ps := pk.loopPositions(fi)
+			if assumes[i].Loop < 1 || assumes[i].Loop > len(ps) {
+				must(fmt.Errorf("assumed_progress: %s has %d loops", assumes[i].Function, len(ps)))
+			}
+			pk.assumedLoops[ps[assumes[i].Loop-1]] = true
+			assumes[i].Pos = pk.posString(ps[assumes[i].Loop-1])
+			fi.noInline = true
+		}
+	}
+
 	// guard variables and inlinable predicates
 	for _, name := range pk.names {
 		fi := pk.funcs[name]
@@ -351,7 +381,7 @@ func main() {
 	n0 := len(pk.problems)
 	for _, name := range pk.names {
 		fi := pk.funcs[name]
-		if fi.prim != "" || !fi.boolResult || fi.recursive || fi.decl.Recv == nil {
+		if fi.prim != "" || !fi.boolResult || fi.recursive || fi.decl.Recv == nil || fi.noInline {
 			continue
 		}
 		if !pk.isParserPtr(fi.obj.Type().(*types.Signature).Recv().Type()) {
@@ -373,6 +403,11 @@ func main() {
 		g := pk.buildFunc(fi)
 		pk.snapAnalysis(g)
 		a.cfgs[fi] = g
+		// structural self-check: the builder has visited every parser call written in the function
+		if n, t, c := pk.astCounts(fi); n != g.builtNext || t != g.builtTick || c != g.builtCall {
+			pk.problem(fi.decl.Pos(), "structural mismatch in %s: source has %d nextToken / %d currentIs+peekIs / %d calls, translated %d / %d / %d",
+				fi.name, n, t, c, g.builtNext, g.builtTick, g.builtCall)
+		}
 	}
 	pk.problems = dedupe(pk.problems)
 	a.computeMayConsume()
@@ -390,6 +425,9 @@ func main() {
 	r := report{Repo: absRepo, Entry: "ParseStatements", Certified: certified, B: a.Bglob, EMain: a.main.E,
 		Variants: len(a.order), Blocking: a.failures, Problems: pk.problems, AssumedProgress: []string{},
 		InlinablePreds: inlinable, ElidedLoops: []string{}, Degraded: []string{}}
+	if len(assumes) > 0 {
+		r.AssumedProgress = assumes
+	}
 	if r.Blocking == nil {
 		r.Blocking = []failure{}
 	}
@@ -456,6 +494,38 @@ func main() {
 		r.Degraded = append(r.Degraded, p)
 	}
 	sort.Strings(r.Degraded)
+	// loops of functions that never tick but are called from translated functions: outside the step
+	// count (listed for review)
+	helperSeen := map[*fnInfo]bool{}
+	var visit func(fi *fnInfo)
+	visit = func(fi *fnInfo) {
+		for c := range fi.callees {
+			if !c.relevant && !helperSeen[c] {
+				helperSeen[c] = true
+				visit(c)
+			}
+		}
+	}
+	for fi := range byFn {
+		visit(fi)
+	}
+	r.HelperLoops = []string{}
+	for _, name := range pk.names {
+		if fi := pk.funcs[name]; helperSeen[fi] {
+			for _, p := range pk.loopPositions(fi) {
+				r.HelperLoops = append(r.HelperLoops, fi.name+" "+pk.posString(p))
+			}
+		}
+	}
+	r.Trusted = []string{
+		"the translation over-approximates: every real execution of ParseStatements is a run of the skeleton for some oracle, each currentIs/peekIs/nextToken call being at least one instruction of that run",
+		"nextToken, currentIs, peekIs are primitives (Next / TestCur|Goto / TestPeek|Unknown); their bodies are not translated; verifTick is called only from them (checked)",
+		"there is one parser: Parser values are built only in New, p.current/peek/peekPeek/lexer are written only in nextToken and New (checked syntactically)",
+		"once the lexer has returned EOF it keeps returning EOF (C12): peek != EOF implies current != EOF, and nextToken at EOF consumes nothing",
+		"no function values, closures, defer or go statements in package parser (checked; otherwise listed under problems and the skeleton is poisoned)",
+		"for/range loops without any parser call are elided (elided_tick_free_loops) and functions that never tick are not translated (loops_in_tick_free_helpers): they add no steps",
+		"a panic ends the run early: every prefix of a run obeys the bound",
+	}
 	js, err := json.MarshalIndent(r, "", " ")
 	must(err)
 	writeIfChanged(*rep, append(js, '\n'))
